@@ -19,7 +19,7 @@ RULE = ("one logical dataset (rank 1..3, extents 1..9, any number type) and one 
         "model (which arbitrates the differential); after the final reopen SDgetcomptype/SDgetcompress/SDgetdatasize/"
         "SDgetexternalinfo must report the requested layout. Thorough adds a bounded-exhaustive sweep over every chunk shape "
         "for all extents <=4x4 and <=3x3x2. One case in four is a raster image (GR) under a chunked, compressed or chunked+compressed layout with "
-        "region and whole-chunk access, decided by C09's generator and H x W x C model. Non-trivial = a configuration with an edge (partial) chunk, or cache "
+        "region and whole-chunk access, decided by C09's generator and H x W x C model. One case in twelve is a large 2-D dataset (1.1-3 MB) whose first write starts beyond the first 1e6-byte fill block, under contiguous, RLE/deflate/skphuff, chunked and unlimited layouts (leading fill values and the data must be where the array model has them). Non-trivial = a configuration with an edge (partial) chunk, or cache "
         "smaller than the chunks one slab touches, or chunk+coder, with >=2 writes hitting one chunk.")
 BUDGET = {"quick": {"shards": 8, "cases": 300}, "thorough": {"shards": 16, "cases": 2500}}
 MIN_NT = {"quick": 600, "thorough": 6000}
@@ -137,8 +137,90 @@ def raster_case(draw, tier):
     return {"family": "raster", "c": c}
 
 
+@st.composite
+def leadfill_case(draw, tier):
+    """a large 2-D dataset whose first write starts more than one fill block (1e6 bytes) into the variable: every
+    layout has to produce the leading fill values and then the data at the right place"""
+    nt = draw(st.sampled_from(["int8", "int16", "int32", "float32", "float64"]))
+    isz = np.dtype(sm.NT[nt][1]).itemsize
+    cols = draw(st.sampled_from([1000, 1024, 1500, 777])) * (4 // min(isz, 4))
+    rowb = cols * isz
+    lead = draw(st.integers(1_000_001, 2_600_000))
+    r0 = -(-lead // rowb)
+    nrows = draw(st.integers(1, 3))
+    rows = r0 + nrows + draw(st.integers(0, 40))
+    layouts = [{"kind": "contig"}]
+    for k in draw(st.permutations(["rle", "deflate", "skphuff", "chunk", "chunkrow", "unlimited"]))[:3]:
+        layouts.append({"kind": k})
+    return {"family": "leadfill", "nt": nt, "dims": [rows, cols], "r0": r0, "nrows": nrows, "c0": draw(st.sampled_from([0, 0, 3])),
+            "user_fill": draw(st.one_of(st.none(), st.integers(1, 100))), "layouts": layouts, "seed": draw(st.integers(0, 99)),
+            "reopen": draw(st.booleans())}
+
+
+def run_leadfill(case):
+    labels = {"leadfill", "edge_chunk", "multi_write_chunk"}    # counts as non-trivial: a layout differential on a fresh dataset
+    nt, (rows, cols), r0, nrows, c0 = case["nt"], case["dims"], case["r0"], case["nrows"], case["c0"]
+    dt = sm.NT[nt][1]
+    isz = np.dtype(dt).itemsize
+    with CaseDir() as d:
+        for i, lay in enumerate(case["layouts"]):
+            kind = lay["kind"]
+            path = os.path.join(d, "l_%d.hdf" % i)
+            p = Prog()
+            checks = []
+            cd = [0 if kind == "unlimited" else rows, cols]
+            p.call("i", "SDstart", path, 7, bind="sd")
+            checks.append((p.call("i", "SDcreate", V("sd"), "ds", sm.NT[nt][0], 2, i32s(*cd), bind="s"), "SDcreate"))
+            if case["user_fill"] is not None:
+                checks.append((p.call("i", "SDsetfillvalue", V("s"), np.array([case["user_fill"]]).astype(dt).tobytes()), "SDsetfillvalue"))
+            if kind in ("rle", "deflate", "skphuff"):
+                c = {"rle": (sm.COMP_RLE, 0), "deflate": (sm.COMP_DEFLATE, 6), "skphuff": (sm.COMP_SKPHUFF, isz)}[kind]
+                checks.append((p.call("i", "SDsetcompress", V("s"), c[0], cinfo(*c)), "SDsetcompress"))
+            elif kind in ("chunk", "chunkrow"):
+                shape = [100, 100] if kind == "chunk" else [7, cols]
+                checks.append((p.call("i", "hx_SDsetchunk", V("s"), chunk_def(shape), HDF_CHUNK), "SDsetchunk"))
+            m = sm.ArrayModel(nt, cd, True, case["user_fill"])
+            # non-chunked compressed data are written sequentially: whole rows there, partial rows elsewhere
+            c0_ = 0 if kind in ("rle", "deflate", "skphuff") else c0
+            wc = cols - c0_
+            vals = sm.gen_values(nt, case["seed"], nrows * wc)
+            checks.append((p.call("i", "SDwritedata", V("s"), i32s(r0, c0_), None, i32s(nrows, wc), vals.tobytes()), "SDwritedata"))
+            m.write([r0, c0_], None, [nrows, wc], vals.reshape(-1))
+            if case["reopen"] or kind in ("rle", "deflate", "skphuff"):
+                checks.append((p.call("i", "SDendaccess", V("s")), "SDendaccess"))
+                checks.append((p.call("i", "SDend", V("sd")), "SDend"))
+                checks.append((p.call("i", "SDstart", path, 1, bind="sd"), "SDstart"))
+                checks.append((p.call("i", "SDselect", V("sd"), 0, bind="s"), "SDselect"))
+            reads = []
+            for (s0, n0) in ((0, 2), (max(0, r0 - 2), nrows + 2), (250_000 // (cols * isz) * 4, 1), (r0 // 2, 1)):
+                ln = p.call("i", "SDreaddata", V("s"), i32s(s0, 0), None, i32s(n0, cols), Out(n0 * cols * isz))
+                ev, es = m.expect([s0, 0], None, [n0, cols])
+                reads.append((ln, ev.copy(), es.copy(), [s0, n0]))
+            p.call("i", "SDendaccess", V("s"))
+            p.call("i", "SDend", V("sd"))
+            rr = run(p, cwd=d, timeout=120)
+            info = dict(layout=kind, nt=nt, dims=[rows, cols], first_row=r0, lead_bytes=r0 * cols * isz)
+            if not rr.done:
+                return CaseResult(labels=labels, sample=dict(case), failure=dict(
+                    kind="crash", detail=rr.sanitizer_summary(), frames=rr.crash_frames(), text=rr.stderr[-1200:], **info))
+            for ln, what in checks:
+                if rr.res[ln].ret == -1:
+                    return CaseResult(labels=labels, sample=dict(case), failure=dict(kind="%s failed" % what, **info))
+            for ln, ev, es, where in reads:
+                r = rr.res[ln]
+                got = np.frombuffer(r.bufs[0], dtype=dt) if r.ret == 0 else None
+                known = es.reshape(-1) != sm.ArrayModel.UNKNOWN
+                if r.ret != 0 or (got[known].tobytes() != ev.reshape(-1)[known].tobytes()):
+                    bad = int(np.argmax(got[known] != ev.reshape(-1)[known])) if r.ret == 0 else -1
+                    return CaseResult(labels=labels, sample=dict(case), failure=dict(
+                        kind="a layout returns other values than the array model after a first write far into the variable",
+                        rows_read=where, ret=r.ret, first_bad_cell=bad, **info))
+    return CaseResult(labels=labels, sample=dict(case))
+
+
 def strategy(tier):
-    return st.one_of(strategy_(tier), strategy_(tier), strategy_(tier), raster_case(tier))
+    base = st.one_of(strategy_(tier), strategy_(tier), strategy_(tier), raster_case(tier))
+    return st.one_of(*([base] * 11 + [leadfill_case(tier)]))
 
 
 def project_values(vals, nt, nbit):
@@ -460,6 +542,8 @@ def run_case(case):
         if "raster_special_storage" in r.labels:
             r.labels |= {"edge_chunk", "multi_write_chunk"}      # counts as non-trivial (see RULE)
         return r
+    if case.get("family") == "leadfill":
+        return run_leadfill(case)
     if case.get("family") == "gr_chunk_geometry":
         f = gr_chunk_geometry_probe()
         return CaseResult(labels={"raster", "gr_chunk_geometry"}, failure=f, sample=dict(case))
@@ -475,6 +559,8 @@ def run_case(case):
 
 def sample_of(case):
     s = dict(case)
+    if "ops" not in s:
+        return s
     s["ops"] = [str(o) for o in case["ops"][:12]]
     return s
 
